@@ -179,6 +179,27 @@ theorem c09_404_cache (env : Env) (st : Store) (bucket : String) (bs2 : BucketSt
   simp only at h2
   exact ⟨hl, h2.2.1, h2.1⟩
 
+/-- The listing request itself may fail.  Only a 404 of the listing (the bucket is gone) turns the missing chunk into
+    an unavailable store; any other failure of the listing - a server glitch after transient faults beyond the budget,
+    an authorisation failure - is what `get_chunk` ends with, unchanged, and the bucket is not remembered as
+    verified.  In particular transient faults on the listing never make the store "unavailable". -/
+theorem c09_404_listing_failure_passes_through (env : Env) (st : Store) (bucket : String) (bs : BucketState)
+    (reader : List UInt8 → Rd α) (expect : α → Bool) (body : List UInt8) (wc wl : List Fault) (n m : Nat) (e : Err)
+    (hnew : bucket ∉ st.verified) (he : e ≠ .notFound)
+    (hreq : ({ forcelist := env.forcelist, mode := .streaming, reader := reader, body := body } : Req α).request
+              env.budget wc = (.error .notFound, n))
+    (hlist : ({ forcelist := env.forcelist, mode := .buffered, body := env.listing,
+                reader := fun _ => .ok (decide (bs = .nonEmpty)) } : Req Bool).request
+              env.budget (wl ++ [listReply bs]) = (.error e, m)) :
+    let r := getChunk env st bucket bs reader expect body wc wl
+    r.result = .error e ∧ r.listRequests = m ∧ r.chunkRequests = n ∧ r.store = st := by
+  simp only [getChunk, hreq, verifyBucket, hnew, if_false, hlist]
+  cases e <;> simp_all
+
+-- two 503 on the listing with a budget of one status retry: a server glitch (a missing chunk), not "unavailable"
+example : (getChunk exEnv ⟨[]⟩ "b" .nonEmpty exReader (fun _ => true) exBody [.status 404]
+    [.status 503, .status 503]).result = .error .glitch := by decide
+
 example : (getChunk exEnv ⟨[]⟩ "b" .nonEmpty exReader (fun _ => true) exBody [.status 404] []).result = .error .notFound := by decide
 example : (getChunk exEnv ⟨[]⟩ "b" .empty exReader (fun _ => true) exBody [.status 404] []).result = .error .unavailable := by decide
 example : (getChunk exEnv ⟨[]⟩ "b" .missing exReader (fun _ => true) exBody [.status 503, .status 404] []).result = .error .unavailable := by decide
